@@ -267,7 +267,15 @@ func (s *state) walk(node ast.Node) {
 }
 
 func (s *state) visitSoyFile(node *ast.SoyFileNode) {
-	s.jsln("// This file was automatically generated from ", node.Name, ".")
+	// (the name is quoted in a line comment: a line terminator inside it would
+	// end the comment and leave the rest of the name as code)
+	s.jsln("// This file was automatically generated from ", strings.Map(func(r rune) rune {
+		switch r {
+		case '\n', '\r', '\u2028', '\u2029':
+			return ' '
+		}
+		return r
+	}, node.Name), ".")
 	s.jsln("// Please don't edit this file by hand.")
 	s.jsln("")
 	s.visitChildren(node)
